@@ -38,10 +38,10 @@ func (dec *yamlDecoder) processReadStream(reader *bufio.Reader) (io.Reader, stri
 	var sb strings.Builder
 	for {
 		peekBytes, err := reader.Peek(4)
-		if errors.Is(err, io.EOF) {
+		if errors.Is(err, io.EOF) && len(peekBytes) == 0 {
 			// EOF are handled else where..
 			return reader, sb.String(), nil
-		} else if err != nil {
+		} else if err != nil && !errors.Is(err, io.EOF) {
 			return reader, sb.String(), err
 		} else if string(peekBytes[0]) == "\n" {
 			_, err := reader.ReadString('\n')
